@@ -39,7 +39,11 @@ NOTES = ["all target theorems are proved at full strength (no _partial statement
          "the plain column for lines shorter than 4 GiB)",
          "the lexer accepts a line containing U+000A (the newline rule of LEX_RE); the model and the enumeration include it "
          "although cli.rs never passes one",
-         "out-of-scope observation (DESIGN 1.1): a literal still pending when the file ends is never delivered"]
+         "out-of-scope observation (DESIGN 1.1): a literal still pending when the file ends is never delivered",
+         "build: this module appends theories/Lex/Scanner.vo and theories/Lex/LexSpec.vo to common.MODEL_VOS at import "
+         "time so that they are compiled before coq/extract/lex is extracted (they are not yet in Interp/Run.vo's cone)",
+         "the oracle is the extracted LexSpec.spec_line run on the same inputs as the real lexer (impl != spec is a "
+         "violation, shrunk greedily by lines then characters); impl == spec != model is a disagreement"]
 MODELLED = ("src/lex.rs LEX_RE (the regex crate's leftmost-first semantics, Unicode \\s and \\b) and Lexer::line, "
             "src/loc.rs Loc::new are modelled by hand in Lex/Scanner.v; theorems are about that model, tied to the real "
             "lexer by exhaustive short-string enumeration and random long/multi-line cases through the public "
